@@ -3,6 +3,7 @@ package main
 import (
 	"fmt"
 	"os"
+	"strings"
 	"time"
 
 	"google.golang.org/protobuf/compiler/protogen"
@@ -99,6 +100,7 @@ func generatePerMessage(plugin *protogen.Plugin, req generateRequest) error {
 	if err != nil {
 		return fmt.Errorf("unable to load embedded content templates: %w", err)
 	}
+	usedNames := make(map[string]struct{})
 	for _, msg := range allMessages(req.ProtoDesc)() {
 		args := genArgsPerFile{
 			Now:                now,
@@ -123,6 +125,20 @@ func generatePerMessage(plugin *protogen.Plugin, req generateRequest) error {
 		if err != nil {
 			return fmt.Errorf("error executing file name template for message %s: %w", msg.Desc.FullName(), err)
 		}
+
+		// messages nested in different parents can have the same short name, and names that differ only by
+		// case are the same file on some file systems: fall back to the (unique) Go type name of the message
+		if _, dup := usedNames[strings.ToLower(fname)]; dup {
+			base := req.ProtoDesc.GeneratedFilenamePrefix + "_" + strings.ToLower(msg.GoIdent.GoName)
+			fname = base + ".pb.fm.go"
+			for i := 2; ; i++ {
+				if _, dup = usedNames[strings.ToLower(fname)]; !dup {
+					break
+				}
+				fname = fmt.Sprintf("%s_%d.pb.fm.go", base, i)
+			}
+		}
+		usedNames[strings.ToLower(fname)] = struct{}{}
 
 		result := plugin.NewGeneratedFile(fname, req.ProtoDesc.GoImportPath)
 		if _, err = result.Write([]byte(content)); err != nil {
